@@ -694,6 +694,10 @@ def check_C03(work, tier, seed):
         mc_violation("C03", out, "MC_Mode", r)
     for neg in ("MCneg_Mode_noalpha", "MCneg_Mode_losetweak"):
         run_mc(work, out, "MC_Mode", neg, expect_fail=True)
+    # Dec.Enc = id and Enc.Dec = id in the SPECIFICATION (components exhaustively where small)
+    r, ok = run_mc(work, out, "MC_Cipher", "MC_Cipher", coverage=False)
+    if not ok:
+        mc_violation("C03", out, "MC_Cipher", r)
     b = build(work)
     lines = backend_sweep(work, b, "C03", seed, lambda cf: gen_c03(seed, tier, cf), out)
     # spec -> impl: every transition of the mode machine's state graph on the real objects
@@ -708,7 +712,9 @@ def check_C03(work, tier, seed):
              "the parallel object (state image and every crypt validated by TLC against MantisSpec in the model's "
              "mode); SKINNY: the same arbitrary blocks through encrypt AND decrypt of the single-block and parallel "
              "functions, full and reduced rounds (every inverse S-box copy), each validated against SkinnySpec, on "
-             "every back end - so round trips follow from conformance plus Dec.Enc = id in the specification.",
+             "every back end - so round trips follow from conformance plus Dec.Enc = id in the specification, which "
+             "MC_Cipher checks (Mix/InvMix and Mantis M exhaustively per 4-bit column, round/inverse round and whole "
+             "ciphers on a deterministic sample, permutation and LFSR inverse laws).",
         assumptions=["inverse laws of the reference ciphers are checked on their components at TLC start-up"])
 
 
